@@ -127,6 +127,9 @@ def first_diff(a, b, depth=0):
     return "other"
 
 
+STR_DECODE = ["utf-8"]
+
+
 def parse_source(data: bytes, clazz, handler, kind, tmpdir):
     """Parse one document through one handler from one kind of source."""
     from xsdata.exceptions import ConverterWarning
@@ -137,7 +140,8 @@ def parse_source(data: bytes, clazz, handler, kind, tmpdir):
         if kind == "bytes":
             return p.from_bytes(data, clazz)
         if kind == "str":
-            return p.from_string(data.decode("utf-8"), clazz)
+            # the text of the document, whatever encoding its bytes were in (the declaration stays as it was written)
+            return p.from_string(data.decode(STR_DECODE[0]), clazz)
         path = os.path.join(tmpdir, f"doc-{handler}-{kind}.xml")
         if kind in ("path", "filename", "fileobj"):
             with open(path, "wb") as f:
@@ -321,7 +325,11 @@ def run_handlers_for(ctx, model, style, loaded, obj, cfg, writer, seed, encoding
     for a in o.applied:
         ctx.feature(f"rewrite:{a}")
     w["rewritten"] = data.decode("latin-1")
-    check_handlers(ctx, data, type(obj), has_q, encoding == "utf-8" and not data.startswith(b"\xef\xbb\xbf"), w, "rewritten", model)
+    STR_DECODE[0] = {"utf-8": "utf-8-sig", "utf-16-le": "utf-16", "utf-16-be": "utf-16"}.get(encoding, encoding)
+    try:
+        check_handlers(ctx, data, type(obj), has_q, True, w, "rewritten", model)
+    finally:
+        STR_DECODE[0] = "utf-8"
 
 
 def run_shard(ctx):
